@@ -595,6 +595,12 @@ func (it *Interp) lookup(ins *ssa.Lookup, x, key Value) Value {
 // mapFind returns the index of key in m, forking on symbolic comparisons.
 func (it *Interp) mapFind(m *MapObj, key Value) int {
 	if ifc, ok := key.Ref.(*Iface); ok && !types.Comparable(ifc.t) {
+		// gc spells the error differently for a lookup or delete on an empty
+		// map (internal/runtime/maps.unhashableTypeError) and for every other
+		// map operation (runtime.errorString raised by the hash function)
+		if len(m.keys) == 0 && !it.mapAssign {
+			it.goPanicValue(it.errorString("hash of unhashable type: " + typeStr(ifc.t)))
+		}
 		it.goPanicRuntime("hash of unhashable type " + typeStr(ifc.t))
 	}
 	for i, k := range m.keys {
@@ -614,7 +620,10 @@ func (it *Interp) mapUpdate(mv, key, val Value) {
 	if m.epoch != it.epoch {
 		it.unsupported("update of a frozen (package-level) map")
 	}
-	if i := it.mapFind(m, key); i >= 0 {
+	it.mapAssign = true
+	i := it.mapFind(m, key)
+	it.mapAssign = false
+	if i >= 0 {
 		m.vals[i] = val
 		return
 	}
